@@ -18,11 +18,11 @@ grep -E "^test result" $OUT/suite_with.log
 echo "== demo with the change (must fail)"
 cargo test --offline --test seed_demo > $OUT/demo_with.log 2>&1; DW=$?
 echo "exit $DW"
-git stash push -q -- src
+git apply -R $OUT/patch.diff
 echo "== demo without the change (must pass)"
 cargo test --offline --test seed_demo > $OUT/demo_without.log 2>&1; DWO=$?
 echo "exit $DWO"
-git stash pop -q
+git apply $OUT/patch.diff
 echo "== checks against /repo with the patch"
 cd /repo && git apply $OUT/patch.diff || { echo "patch does not apply to /repo"; exit 2; }
 cd /verif
